@@ -384,7 +384,6 @@ func checkMatrix(r *ev.Run, l libMat, a mat) {
 	}
 }
 
-
 // checkMatrixScaled: the kernels at 2^-20 and 2^20 times a well-conditioned matrix. Power-of-two scalings are exact,
 // so inverse, eigenvalues and singular values must be the exactly rescaled unit-scale answers up to rounding; a
 // difference can only come from an absolute threshold inside the library.
@@ -1108,7 +1107,6 @@ func bicgStage(r *ev.Run, full bool) {
 	r.Set("bicgstab_systems", len(systems))
 }
 
-
 // extraMatrixOps: methods that exist only on some of the matrix types, reached through a type switch.
 func extraMatrixOps(r *ev.Run, l libMat, m interface{}, a mat, det, scale float64, viol func(kind, msg string)) {
 	n := l.n
@@ -1161,7 +1159,10 @@ func extraMatrixOps(r *ev.Run, l libMat, m interface{}, a mat, det, scale float6
 		c3.Scale(-2.5)
 		check("Scale", l.dense(&c3), sum(make0(n), a, -2.5), tol*3)
 	case *model2d.Matrix2:
-		mci = func(v []float64) []float64 { o := x.MulColumnInv(model2d.XY(v[0], v[1]), det); return []float64{o.X, o.Y} }
+		mci = func(v []float64) []float64 {
+			o := x.MulColumnInv(model2d.XY(v[0], v[1]), det)
+			return []float64{o.X, o.Y}
+		}
 		check("Add", l.dense(x.Add(other.(*model2d.Matrix2))), sum(a, at, 1), tol)
 		if invertible {
 			c1, c2 := *x, *x
